@@ -7,7 +7,10 @@ LEVEL_TEXT = (
     "all r*c cells were visited, which implies every cell is reachable; the connections form a tree over the visited cells (|E| = |V|-1, every "
     "edge joins visited cells) with at most the requested number of cells; percolation generators record the component computed by "
     "gen_connected_component_from (itself proved against reach); dfs_percolation keeps a true flag true because edges are only added. "
-    "The single-corridor clause (do_forks=False) and get_connected_component/generate_random_path are decided by the bounded stand-in only."
+    "The last sentence of the property is proved too: get_connected_component returns distinct in-grid cells that are mutually reachable for every maze whose metadata has one of the shapes the "
+    "generators produce and tells the truth in the sense above (what the generator contracts establish), and generate_random_path - plain or with any combination of allowed_start / allowed_end / "
+    "deadend / endpoints_not_equal options - only hands pairs of such cells to the solver, whose contract then gives a connected shortest path (a pair outside the component fails the solver's "
+    "reach precondition). The single-corridor clause (do_forks=False) is decided by the bounded stand-in only."
 )
 LEVEL_NOTE = (
     "Trusted: pyvc encoding; RNG library contracts (value ranges only); lemmas about reachability as a least fixed point "
@@ -15,7 +18,7 @@ LEVEL_NOTE = (
     "connected + |E| = |V|-1 (textbook, not machine-checked); termination not proved (Wilson's walk terminates only almost surely)."
 )
 TECHNIQUE = "contract-based deductive verification: loop invariants + callee contracts over the real AST, z3; bounded enumeration of all RNG scripts as stand-in"
-CONTRACT_MODULES = ["contracts.lattice_maze", "contracts.generators"]
+CONTRACT_MODULES = ["contracts.lattice_maze", "contracts.generators", "contracts.solver", "contracts.paths"]
 G = "maze_dataset/generation/generators.py"
 LM = "maze_dataset/maze/lattice_maze.py"
 PROVE = [
@@ -30,6 +33,9 @@ PROVE = [
     (LM, "LatticeMaze.nodes_connected"),
     (LM, "LatticeMaze.get_coord_neighbors"),
     (LM, "LatticeMaze.gen_connected_component_from"),
+    (LM, "LatticeMaze.get_nodes"),
+    (LM, "LatticeMaze.get_connected_component"),
+    (LM, "LatticeMaze.generate_random_path"),
 ]
 ASSUMPTIONS = [
     "grid_shape is passed as an ndarray of two ints >= 1 (MazeDatasetConfig.grid_shape_np does; gen_wilson rejects a tuple)",
